@@ -1,5 +1,5 @@
 (** C19 — regeneration never loses user-written resolver code. *)
-From GV Require Import Base.Prelude Model.Rewrite Proofs.RewriteProofs Corr.Corr_C19.
+From GV Require Import Base.Prelude Model.Rewrite Model.Regen Proofs.RewriteProofs Proofs.RegenProofs Corr.Corr_C19.
 Open Scope list_scope.
 
 (** Whatever the schema now calls for ([lv]) and whatever a resolver file contains: every top-level declaration
@@ -40,6 +40,32 @@ Theorem C19_warning_block_legacy_refuted :
 Proof. vm_compute. reflexivity. Qed.
 Print Assumptions C19_warning_block_legacy_refuted.
 
+(** However often regeneration is repeated: for every set of resolver files, every set of resolvers the schema
+    calls for (each (receiver, method) in one file, no receiver called like the root type) and whatever text the
+    templates render around them, after k+1 runs the resolver found for a field that still exists carries the
+    body the user wrote, and the user's doc text when there was one. *)
+Theorem C19_user_body_survives_repetition :
+  forall method_src access_src struct_src stub_body default_doc lv before k l m p,
+  wf_live lv = true -> In l lv -> In m (l_methods l) -> prev_decl before (fst m) (snd m) = Some p ->
+  let after := regen_n method_src access_src struct_src stub_body default_doc copied (S k) lv before in
+  option_map d_body (prev_decl after (fst m) (snd m)) = Some (d_body p) /\
+  (String.eqb (d_doc p) "" = false -> option_map d_doc (prev_decl after (fst m) (snd m)) = Some (d_doc p)).
+Proof. exact user_body_survives_lemma. Qed.
+Print Assumptions C19_user_body_survives_repetition.
+
+(** A second run over the output of a run reproduces every regenerated file's declarations and imports, drops
+    the warning block and leaves the files the generator does not write as they are: the rescued code is shown
+    by the run that moved it, and nothing else ever changes. *)
+Theorem C19_second_run_only_drops_the_block :
+  forall method_src access_src struct_src stub_body default_doc lv before,
+  wf_live lv = true ->
+  regen method_src access_src struct_src stub_body default_doc copied lv
+        (regen method_src access_src struct_src stub_body default_doc copied lv before)
+  = map clear_remaining (map (regen_file method_src access_src struct_src stub_body default_doc copied lv before) lv)
+    ++ stale lv before.
+Proof. exact regen_twice_lemma. Qed.
+Print Assumptions C19_second_run_only_drops_the_block.
+
 (** Non-vacuity: a file with a kept resolver, a removed resolver and a helper. *)
 Open Scope string_scope.
 Example C19_nonvacuous :
@@ -50,3 +76,13 @@ Example C19_nonvacuous :
   remaining_source lv f = "func (r *queryResolver) Gone() { body two }\nfunc helper() {}"
   /\ option_map d_body (prev_decl [f] "queryResolver" "Kept") = Some "body one".
 Proof. vm_compute. split; reflexivity. Qed.
+Example C19_regen_nonvacuous :
+  let lv := [{| l_file := "a.resolvers.go"; l_methods := [("queryResolver", "Kept"); ("queryResolver", "New")]; l_structs := ["queryResolver"]; l_access := ["Query"]; l_root := false |}] in
+  let m r n b := {| d_kind := KMethod r n; d_doc := "Kept does it."; d_rawdoc := "Kept does it."; d_body := b; d_src := r ++ "." ++ n ++ "{" ++ b ++ "}" |} in
+  let f := {| f_name := "a.resolvers.go"; f_imports := []; f_decls := [m "queryResolver" "Kept" "return 1"; m "queryResolver" "Gone" "return 2"]; f_remaining := None |} in
+  let run := regen_n (fun r n b => r ++ "." ++ n ++ "{" ++ b ++ "}") (fun a => a) (fun s => s) (fun _ _ => "panic()") (fun _ n => n ++ " is the resolver.") copied in
+  wf_live lv = true /\
+  map f_remaining (run 1%nat lv [f]) = [Some "queryResolver.Gone{return 2}"] /\
+  map f_remaining (run 2%nat lv [f]) = [None] /\
+  map (fun f => map d_body (f_decls f)) (run 3%nat lv [f]) = [["return 1"; "panic()"; ""; ""]].
+Proof. vm_compute. repeat split; reflexivity. Qed.
